@@ -113,7 +113,9 @@ func PlmnIdToCdr(modelsPlmnid models.PlmnId) cdrType.PLMNId {
 	if len(mcc) != 3 || (len(mnc) != 2 && len(mnc) != 3) {
 		return cdrType.PLMNId{}
 	}
-	if len(modelsPlmnid.Mnc) == 2 {
+	// (the digits are counted in characters here: a multi-byte character makes
+	// the byte length and the number of characters differ)
+	if len(mnc) == 2 {
 		hexString = mcc[1] + mcc[0] + "f" + mcc[2] + mnc[1] + mnc[0]
 	} else {
 		hexString = mcc[1] + mcc[0] + mnc[0] + mcc[2] + mnc[2] + mnc[1]
